@@ -129,7 +129,7 @@ func (c *FnCtx) autoAxioms() {
 // VerifyFunction generates the obligations of one function against its contract.
 func (e *Engine) VerifyFunction(key string) (res *FnResult) {
 	ct := e.Contracts.ByKey[key]
-	fn := e.FnByKey[key]
+	fn, recvNowPtr := e.FunctionFor(key)
 	res = &FnResult{Key: key, Contract: ct}
 	if fn == nil {
 		res.Err = "function not found in the loaded program: " + key
@@ -176,17 +176,26 @@ func (e *Engine) VerifyFunction(key string) (res *FnResult) {
 		res.Err = fmt.Sprintf("contract header of %s has %d results, function has %d", key, len(ct.Results), fn.Signature.Results().Len())
 		return
 	}
+	// cargs: the arguments as the contract sees them (a value receiver that became a pointer receiver is
+	// the struct value at entry)
+	cargs := args
+	if recvNowPtr {
+		if ptr, ok := args[0].(*Term); ok {
+			pt := fn.Params[0].Type().Underlying().(*types.Pointer).Elem()
+			cargs = append([]Value{c.loadStruct(st, c.structInfoOf(pt), ptr)}, args[1:]...)
+		}
+	}
 	for _, rq := range ct.Requires {
-		cond, _ := c.evalClause(rq.FnName, ct.PkgPath, args, st, nil)
+		cond, _ := c.evalClause(rq.FnName, ct.PkgPath, cargs, st, nil)
 		c.assume(st, cond)
 	}
 	if ct.Assigns != nil {
 		c.hasFrame = true
-		c.assigns = c.collectAssigns(ct, args, st)
+		c.assigns = c.collectAssigns(ct, cargs, st)
 	}
 	if ct.Alloc != nil {
 		if afn := c.lookupSynthetic(ct.PkgPath, ct.Alloc.FnName); afn != nil {
-			if t, ok := c.evalGhost(afn, args, st, nil).(*Term); ok {
+			if t, ok := c.evalGhost(afn, cargs, st, nil).(*Term); ok {
 				c.allocBnd = t
 			}
 		}
@@ -225,7 +234,7 @@ func (e *Engine) VerifyFunction(key string) (res *FnResult) {
 			var parts []*Term
 			for _, r := range fr.rets {
 				rs := r.st.clone()
-				all := append(append([]Value{}, args...), r.vals...)
+				all := append(append([]Value{}, cargs...), r.vals...)
 				cond, _ := c.evalClause(en.FnName, ct.PkgPath, all, rs, entry)
 				parts = append(parts, f.Implies(rs.R, cond))
 			}
@@ -249,7 +258,8 @@ func (e *Engine) VerifyFunction(key string) (res *FnResult) {
 			} else {
 				o.Props = ct.Props
 			}
-		case frameKinds[o.Kind]:
+		case frameKinds[o.Kind] || o.Kind == "pre":
+			// frames and callee preconditions underpin every use of a contract (and the callee's own safety)
 			o.Props = ct.Props
 		default:
 			var ps []string
